@@ -133,6 +133,7 @@ def run_extraction(case):
     J = os.path.join(root, "J")
     os.makedirs(J)
     os.makedirs(os.path.join(root, "O"))
+    os.makedirs(os.path.join(root, "Jx"))          # a sibling whose name starts with the destination's name
     with open(os.path.join(root, "O", "keep"), "w") as f:
         f.write("outside")
     for rel in case.get("prepopulate", []):
